@@ -733,6 +733,9 @@ def run(ctx, only_cases=None):
         cases += [{"kind": "shadow", "which": w, "trials": trials} for w in ("exact", "range")]
         cases += [{"kind": "sweeprace", "which": w, "trials": 12 if thorough else 4, "keys": 3000} for w in ("ban", "bl")]
         cases.append({"kind": "addr"})
+        for n in ([1000, 49999, 50000, 65536, 131072] if thorough else [1000, 50000, 65536]):
+            cases.append({"kind": "crowd", "entry": ctx.rng.choice(["allowip", "allowip", "allowtunnel"]), "keys": n,
+                          "cfg": {"rate": 1, "burst": 3, "ttl_ms": 600000}})
         for entry in ("allowip", "allowipburst", "allowtunnel"):
             cases.append({"kind": "burst", "entry": entry, "goroutines": 32, "keys": 60 if thorough else 25,
                           "cfg": {"rate": ctx.rng.choice([7, 13]), "burst": ctx.rng.choice([1, 2, 3]), "ttl_ms": 60000}})
@@ -745,6 +748,7 @@ def run(ctx, only_cases=None):
     ambiguous_trials = 0
     probe = {}
     addr_probe = {}
+    crowd_rounds = []
     for c, o in zip(cases, outs):
         if c["kind"] == "race":
             ambiguous_trials += o["pre_not_expired"]
@@ -752,6 +756,15 @@ def run(ctx, only_cases=None):
                 key, what = RACES[c["which"]]
                 ctx.violation(key, "%s: the entry established right after the query was gone in %d of %d trials (the removal "
                               "spawned by the query on the expired entry deleted it)" % (what, o["lost"], o["trials"]),
+                              {"case": c, "observed": o})
+        elif c["kind"] == "crowd":
+            cf, adm, el = c["cfg"], o["admitted"][0], o["elapsed_ns"][0]
+            crowd_rounds.append({"others": c["keys"], "let_through": adm, "elapsed_ms": round(el / MS, 1)})
+            if adm > cf["burst"] + cf["rate"] * (el + 20 * MS) / NS + 1e-6:
+                ctx.violation("other-addresses-reset-bucket", "%s: an address uses up its burst (%d), %d OTHER distinct addresses make one request each, "
+                              "the address asks again: %d of its requests were let through in %.1f ms (rate %d/s, burst %d: at most %d) - "
+                              "its drained bucket was discarded" % (c["entry"], cf["burst"], c["keys"], adm, el / MS, cf["rate"], cf["burst"],
+                                                                    int(cf["burst"] + cf["rate"] * (el + 20 * MS) / NS)),
                               {"case": c, "observed": o})
         elif c["kind"] == "sweeprace":
             if o["lost"] > 0:
@@ -921,7 +934,7 @@ def run(ctx, only_cases=None):
         "race_trials": sum(o["trials"] for o in races), "race_trials_ambiguous": ambiguous_trials,
         "race_trials_entry_lost": sum(o["lost"] for o in races),
         "token_forms_probed": [{"token": t, "registers": r, "charged": c} for t, r, c in zip(TOK["forms"], TOK["registers"], TOK["charged"])],
-        "inflight_schedules": len(infl), "blacklist_lookup_probe": probe, "address_key_probe": addr_probe,
+        "inflight_schedules": len(infl), "blacklist_lookup_probe": probe, "address_key_probe": addr_probe, "crowd_rounds": crowd_rounds,
         "burst_first_request_rounds": sum(len(o["admitted"]) for c, o in zip(cases, outs) if c["kind"] == "burst"), "model_vs_impl_cases": len(tcs), "model_vs_impl_mismatches": len(mism),
         "cases_explained_by_pinned_variant": explained, "cases_with_recorded_predicate_findings": known_spec, "impl_property_failures": nfail,
         "input_distribution": dist, "generated_file_changed": gen_changed,
